@@ -105,8 +105,52 @@ func goBin() string {
 	return "/opt/veriftools/go1.26.8/bin/go"
 }
 
+// prepareSources copies /repo's current working tree into a scratch directory under .build, inserts the yield hooks
+// around every synchronisation primitive (cmd/instrument) and writes a go.mod that points the harness at the copy.
+func prepareSources(id, tmp string) (modfile string, err error) {
+	src := filepath.Join(verifDir, ".build", "src-"+id)
+	foxDir := filepath.Join(src, "fox")
+	if err := os.MkdirAll(foxDir, 0o755); err != nil {
+		return "", err
+	}
+	run := func(dir string, env []string, name string, args ...string) error {
+		cmd := exec.Command(name, args...)
+		cmd.Dir = dir
+		cmd.Env = env
+		var buf bytes.Buffer
+		cmd.Stdout, cmd.Stderr = &buf, &buf
+		if err := cmd.Run(); err != nil {
+			return fmt.Errorf("%s %s: %v\n%s", name, strings.Join(args, " "), err, buf.String())
+		}
+		return nil
+	}
+	if err := run("/", os.Environ(), "rsync", "-a", "--delete", "--exclude", ".git", repoDir+"/", foxDir+"/"); err != nil {
+		return "", err
+	}
+	instr := filepath.Join(tmp, "instrument")
+	if err := run(filepath.Join(verifDir, "harness"), goEnv(), goBin(), "build", "-o", instr, "./cmd/instrument"); err != nil {
+		return "", err
+	}
+	if err := run("/", os.Environ(), instr, foxDir); err != nil {
+		return "", err
+	}
+	gm, err := os.ReadFile(filepath.Join(verifDir, "harness", "go.mod"))
+	if err != nil {
+		return "", err
+	}
+	modfile = filepath.Join(src, "go.mod")
+	if err := os.WriteFile(modfile, bytes.ReplaceAll(gm, []byte("=> /repo"), []byte("=> "+foxDir)), 0o644); err != nil {
+		return "", err
+	}
+	gs, _ := os.ReadFile(filepath.Join(verifDir, "harness", "go.sum"))
+	os.WriteFile(filepath.Join(src, "go.sum"), gs, 0o644)
+	return modfile, nil
+}
+
+var modFile string
+
 func build(out string, race bool) error {
-	args := []string{"build", "-tags", "verif"}
+	args := []string{"build", "-modfile=" + modFile, "-tags", "verif"}
 	if race {
 		args = append(args, "-race")
 	}
@@ -179,6 +223,10 @@ func main() {
 		die(2, "%v", err)
 	}
 	defer os.RemoveAll(tmp)
+	if modFile, err = prepareSources(id, tmp); err != nil {
+		os.RemoveAll(tmp)
+		die(2, "preparing sources: %v", err)
+	}
 	worker := filepath.Join(tmp, "worker")
 	if err := build(worker, false); err != nil {
 		os.RemoveAll(tmp)
@@ -387,8 +435,12 @@ func main() {
 		trouble = append(trouble, err.Error())
 	}
 	if len(trouble) > 0 {
-		for _, t := range trouble {
-			fmt.Fprintln(os.Stderr, "TROUBLE:", t)
+		for i, t := range trouble {
+			if i >= 3 {
+				fmt.Fprintf(os.Stderr, "TROUBLE: (%d more)\n", len(trouble)-3)
+				break
+			}
+			fmt.Fprintln(os.Stderr, "TROUBLE:", oneLine(t))
 		}
 		if exit == 0 {
 			exit = 2
@@ -462,7 +514,8 @@ func fanOut(worker, tmp, id string, seed uint64, n, workers int, hb bool) ([]*re
 			defer wg.Done()
 			tag := fmt.Sprintf("%s-%v-%d", id, hb, w)
 			out := filepath.Join(tmp, "report-"+tag+".json")
-			args := []string{"-prop", id, "-seed", fmt.Sprint(seed), "-from", fmt.Sprint(from), "-n", fmt.Sprint(cnt), "-out", out, "-replaydir", tmp}
+			progress := filepath.Join(tmp, "progress-"+tag)
+			args := []string{"-prop", id, "-seed", fmt.Sprint(seed), "-from", fmt.Sprint(from), "-n", fmt.Sprint(cnt), "-out", out, "-replaydir", tmp, "-progress", progress}
 			if w == 0 {
 				args = append(args, "-samples", "3")
 			}
@@ -470,7 +523,7 @@ func fanOut(worker, tmp, id string, seed uint64, n, workers int, hb bool) ([]*re
 			cmd.Dir = tmp
 			cmd.Env = append(os.Environ(), "VERIF_KNOWN="+filepath.Join(verifDir, "known_findings.json"))
 			if hb {
-				cmd.Env = append(cmd.Env, "GORACE=halt_on_error=0 log_path="+filepath.Join(tmp, "race-"+tag))
+				cmd.Env = append(cmd.Env, "GORACE=halt_on_error=0 log_path="+filepath.Join(tmp, "race-"+tag), "VERIF_RACELOG="+filepath.Join(tmp, "race-"+tag))
 			}
 			var stderr bytes.Buffer
 			cmd.Stderr = &stderr
@@ -480,6 +533,18 @@ func fanOut(worker, tmp, id string, seed uint64, n, workers int, hb bool) ([]*re
 			defer mu.Unlock()
 			b, rerr := os.ReadFile(out)
 			if rerr != nil {
+				// the worker died (runtime fatal error, os.Exit, ...). If the crash happened inside fox it is a violation
+				// of "never panics"; the run is identified by (seed, index) and replays from the PRNG.
+				runIdx := lastProgress(progress)
+				es := stderr.String()
+				if runIdx >= 0 && strings.Contains(es, "github.com/tigerwill90/fox.") && (strings.Contains(es, "fatal error:") || strings.Contains(es, "panic:")) {
+					file := filepath.Join(tmp, fmt.Sprintf("%s-seed%d-run%d-crash.json", id, seed, runIdx))
+					rf := map[string]any{"property": id, "class": id + "/fatal", "detail": firstLines(es, 3), "seed": seed, "run": runIdx, "hb": hb, "prng": true, "choices": []int{}, "case": map[string]any{"stderr": firstLines(es, 40)}}
+					jb, _ := json.MarshalIndent(rf, "", " ")
+					os.WriteFile(file, jb, 0o644)
+					reports = append(reports, &report{Prop: id, HB: hb, Stats: map[string]int{}, Violations: []violation{{Run: runIdx, Class: id + "/fatal", Detail: firstLines(es, 3), Replay: file}}})
+					return
+				}
 				trouble = append(trouble, fmt.Sprintf("worker %s produced no report (%v): %s", tag, err, oneLine(stderr.String())))
 				return
 			}
@@ -500,12 +565,36 @@ func fanOut(worker, tmp, id string, seed uint64, n, workers int, hb bool) ([]*re
 	return reports, trouble
 }
 
+func lastProgress(file string) int {
+	b, err := os.ReadFile(file)
+	if err != nil {
+		return -1
+	}
+	lines := strings.Fields(string(b))
+	if len(lines) == 0 {
+		return -1
+	}
+	n, err := strconv.Atoi(lines[len(lines)-1])
+	if err != nil {
+		return -1
+	}
+	return n
+}
+
+func firstLines(s string, n int) string {
+	ls := strings.Split(s, "\n")
+	if len(ls) > n {
+		ls = ls[:n]
+	}
+	return strings.Join(ls, "\n")
+}
+
 // runReplay executes a replay file in a fresh worker process and returns its exit code (1 = reproduced).
 func runReplay(worker, tmp, id, file string, out *bytes.Buffer) int {
 	cmd := exec.Command(worker, "-prop", id, "-replay", file)
 	cmd.Dir = tmp
 	cmd.Env = append(os.Environ(), "VERIF_KNOWN="+filepath.Join(verifDir, "known_findings.json"),
-		"GORACE=halt_on_error=0 log_path="+filepath.Join(tmp, "race-replay"))
+		"GORACE=halt_on_error=0 log_path="+filepath.Join(tmp, "race-replay"), "VERIF_RACELOG="+filepath.Join(tmp, "race-replay"))
 	var buf bytes.Buffer
 	cmd.Stdout, cmd.Stderr = &buf, &buf
 	err := cmd.Run()
@@ -516,6 +605,10 @@ func runReplay(worker, tmp, id, file string, out *bytes.Buffer) int {
 		return 0
 	}
 	if ee, ok := err.(*exec.ExitError); ok {
+		if strings.HasSuffix(file, "-crash.json") && ee.ExitCode() == 2 && strings.Contains(buf.String(), "github.com/tigerwill90/fox.") &&
+			(strings.Contains(buf.String(), "fatal error:") || strings.Contains(buf.String(), "panic:")) {
+			return 1 // the process died again inside fox
+		}
 		return ee.ExitCode()
 	}
 	return 2
